@@ -115,6 +115,23 @@ def footprint(sk, *xs):
         return fail("getSubTree(full point)")
     if raw(t.getRoot()) != snap or rank_sizes(t) != rs:
         return fail("a footprint query changed the tree or the rank lists")
+    if sk.get("again"):
+        # the same Format object after the tensor changed: the answers describe the tensor as it is now, nothing is remembered
+        r_ = t.getPayloadRef(*q)
+        r_ <<= 1
+        levels = fibers_at_depth(t.getRoot())
+        tot_all = rh + rp
+        for i, r in enumerate(ids):
+            tot = bits[(i, "rhbits")]
+            for fb in (levels[i] if i < len(levels) else []):
+                tot += ffp(i, fb)
+            tot_all += tot
+            if fm.getRank(r) != tot:
+                return fail("getRank(%s) after the tensor changed does not describe the current tree" % r)
+        if fm.getTensor() != tot_all:
+            return fail("getTensor after the tensor changed")
+        if fm.getFiber() != ffp(0, t.getRoot()) or fm.getSubTree() != sub(0, t.getRoot()):
+            return fail("getFiber / getSubTree after the tensor changed")
     return True
 
 
@@ -136,4 +153,12 @@ def obligations(tier):
                 obs.append(Ob("fp/%s/%s/%s" % (str(tree).replace(" ", ""), "".join(fmts), missing), "footprint",
                               dict(tree=tree, depth=d, fmts=list(fmts), missing=missing, S=S), ps + bn + qn,
                               pre + bound_pre(bn, 0, None) + bound_pre(qn, 0, S)))
+    for tree, fmts in (([1, 1], "CC"), ([1, 0], "UC"), (2, "C")):
+        d = tree_depth(tree)
+        ps = names("x", tree_params(tree))
+        pre, _, cn = tree_pre(tree, ps)
+        bn = names("w", 4 * d) + ["rh", "rp"]
+        qn = names("q", d)
+        obs.append(Ob("fp-again/%s/%s" % (str(tree).replace(" ", ""), fmts), "footprint", dict(tree=tree, depth=d, fmts=list(fmts), missing="none", S=S, again=True),
+                      ps + bn + qn, pre + bound_pre(cn, 0, S) + bound_pre(bn, 0, None) + bound_pre(qn, 0, S)))
     return obs
